@@ -84,17 +84,17 @@ func (rg *rig) newUploadObject(rng *rand.Rand, up *uploadPath, tag string) *obje
 	if arSize > 100*lib.KiB {
 		arSize = 100 * lib.KiB
 	}
-	return rg.fresh(func() *object {
+	return rg.fresh(func(bump int) *object {
 		switch up.kind {
 		case cache.CAS:
-			return newCAS(rng, "uncompressed", size, tag, false) // only the logical content matters here
+			return newCAS(rng, "uncompressed", size+bump, tag, false) // only the logical content matters here
 		case cache.AC:
 			return newAR(rng, cache.AC, arSize, tag)
 		default:
 			if rg.family == "grpc" {
 				return newAR(rng, cache.RAW, arSize, tag)
 			}
-			return newRaw(rng, size, tag)
+			return newRaw(rng, size+bump, tag)
 		}
 	})
 }
